@@ -6,7 +6,7 @@ import ast
 import sympy as sp
 
 from ptstat import AnalysisError
-from ptstat.symval import SymObj, Phi, SymRaise
+from ptstat.symval import SymObj, Phi, SymRaise, merge
 from .common import world, eq, dict_eq, fsite, raises, tuple_everywhere, _s
 
 EXPLANATION = (
@@ -24,7 +24,10 @@ MUTATORS = {"append", "extend", "insert", "pop", "remove", "sort", "reverse", "c
 
 
 def run(ctx):
-    w = world(ctx)
+    def parsed(I_, args, kw):
+        # the string route is C01's subject; here it only has to yield *a new* Formula
+        return I_.instantiate(I_.get_class("formulas.Formula"), [], {}, name="<parsed>")
+    w = world(ctx, stubs={"formulas.parse_formula": parsed})
     I, A = w.I, w.atoms
     fm = I.global_name("formulas", "formula")
     q = sp.symbols("q1:7", positive=True)
@@ -32,7 +35,13 @@ def run(ctx):
     Fe, O, H1, ionI = A["element"], A["element2"], A["H1"], A["ion_isotope"]
     mk = lambda d: I.call(fm, [dict(d)], {})
     atoms = lambda f: I.getattr(f, "atoms")
-    struct = lambda f: I.heap[f.id]["structure"]
+    def struct(f):
+        if isinstance(f, Phi):
+            return merge(f.cond, struct(f.a), struct(f.b))
+        return I.heap[f.id]["structure"]
+
+    def alts(v):
+        return alts(v.a) + alts(v.b) if isinstance(v, Phi) else [v]
     MUL, ADD = ast.Mult(), ast.Add()
     s_add, s_mul, s_iadd = (fsite(ctx, "formulas.Formula." + m) for m in ("__add__", "__rmul__", "__iadd__"))
 
@@ -80,6 +89,9 @@ def run(ctx):
     dict_eq(ctx, "R1", "_change_table keeps counts", I.call(I.global_name("formulas", "_count_atoms"),
             [I.call(ct, [struct(I.call(fm, [seq], {})), w.table], {})], {}),
             {Fe: 2 + q[1], O: 2 * q[0], H1: q[2] * q[3] * q[4]}, fsite(ctx, "formulas._change_table"))
+    for label, res, operand in (("n*f", nf, f), ("n*f [single fragment]", nf1, f1), ("1*f", one, f), ("n*empty", ne, empty)):
+        ctx.check(all(x is not operand for x in alts(res)), "R3", f"{label} is a new object on every path",
+                  f"{label} can return its own operand, so a later += on the product rewrites the operand", s_mul)
     ctx.floor("R1", 12)
 
     # ---- R2 mass / charge / fractions per atom kind --------------------------
@@ -139,7 +151,7 @@ def run(ctx):
     ctx.check(nstores >= 5, "R3", "package-wide sweep of .structure stores",
               f"only {nstores} stores to .structure found (anchor moved?)", sample={"whole-attribute stores": nstores})
     ctx.unit("structure_stores", nstores)
-    ctx.floor("R3", 4)
+    ctx.floor("R3", 8)
 
     # ---- R4 every produced structure is immutable at every level -------------
     produced = {"f+g": h, "n*f": nf, "n*f single": nf1, "1*f": one, "formula(dict)": f, "formula(seq)": I.call(fm, [seq], {}),
